@@ -405,6 +405,8 @@ static int g_wid = 0, g_nw = 16; static uint64_t g_counter = 0, g_resume_after =
 static int64_t g_replay = -1; static double g_deadline_at = 0; static int g_in_case = 0;
 int vx_tier = 0; const char *vx_property = "";
 static int g_argc; static char **g_argv;
+extern long m4ri_verif_mzd_headers_in_use(void); /* hook H3 in mzd.c (guard M4RI_VERIF) */
+static long g_hdr0 = 0;
 static uint64_t g_sample_stride = 0;
 static uint64_t g_group = 0; static int g_group_mode = 0;
 void vx_group(void) { g_group++; g_group_mode = 1; }
@@ -432,6 +434,7 @@ int vx_case_begin(const char *fmt, ...) {
   w->cur_idx = idx; w->t_case = now(); w->die_entered = 0; w->in_case = 1; g_in_case = 1;
   w->executed++;
   if (S->nsamples < MAXS && g_wid < 4) { uint64_t e = w->executed; if (e == 1 || e == 7 || e == 50 || e == 400 || e == 3000 || e == 25000 || e == 200000) vx_sample(NULL); }
+  g_hdr0 = m4ri_verif_mzd_headers_in_use();
   aw_reset(); aw_tracking = 1;
   return 1;
 }
@@ -440,7 +443,10 @@ void vx_case_end(void) {
   /* allocator balance (U4): drop the block cache so that cases are independent and cached blocks are not counted */
   m4ri_mmc_cleanup();
   aw_tracking = 0;
-  if (aw_live != 0) { vx_fail("leak", "allocator-balance", "%ld block(s) still live after the case (temporaries not released)", aw_live); }
+  long hdr1 = m4ri_verif_mzd_headers_in_use();
+  if (hdr1 != g_hdr0) vx_fail("leak", "header-balance", "%ld matrix header(s) still in use after the case (a window or temporary was not freed)", hdr1 - g_hdr0);
+  /* a worker that carries leaked headers from an earlier (already reported) case may need an extra header block: not this case's fault */
+  if (aw_live != 0 && !(g_hdr0 > 0)) { vx_fail("leak", "allocator-balance", "%ld block(s) still live after the case (temporaries not released)", aw_live); }
   w->in_case = 0; g_in_case = 0;
   if (g_replay >= 0) { w->total = g_counter; w->done = 1; fflush(NULL); _exit(0); }
 }
